@@ -513,7 +513,7 @@ func evalFile(prop string, c FileCase) (viol []string, res *Result, note string)
 // FileCheck is the main of C04 and C14.
 func FileCheck(prop string) {
 	r := ev.New(prop, "exploration")
-	r.SetBudget(100*time.Second, 25*time.Minute)
+	r.SetBudget(200*time.Second, 25*time.Minute)
 	core.VerifQuiet()
 	if r.ReplayPath != "" {
 		var c FileCase
